@@ -121,6 +121,22 @@ CHECKS = [
      BASE_NOTE + "Only the matrix clause is proved; threshold (up to a few ulp, within the range of the scored samples) and "
      "AUC equivalence are evaluated on sampled inputs and listed as statements_only in the evidence.",
      "Lean 4 proof (matrix clause) + metamorphic correspondence check", "DESIGN.md §5 C09"),
+ chk("C15",
+     "Lean theorems about the model of roc / _find_support_thresholds (nb_extra_points=None), for ALL sorted score lists, easy "
+     "counts, 4 configurations, 8 x_axis names, supplied fnr/fpr/thresholds arrays and nb_points: C15_rates_match (equal lengths, "
+     "entry i of FNR/FPR is the object's rate at threshold i), C15_monotone (the count behind the named axis metric is "
+     "non-decreasing along the returned thresholds: sorted list, the two reversals, rateNum_eq + belowCount_mono; denominators "
+     "constant), C15_contains / C15_perm (every supplied threshold and thresholdAt of every supplied FNR/FPR is returned; the "
+     "result is a permutation of the support points), C15_length (supplied count, else nb_points, else |pos|+|neg|), C15_views "
+     "(TPR/TNR views = the object's TPR/TNR, NaN together; aliases), C15_total (no error for valid names with both classes "
+     "non-empty, ValueError for unknown names), C15_spec_* (the executable predicates hold of the model). Tied to /repo by one "
+     "real roc() call per case over all 125 x 6 combinations of None/empty/1/several supplied arrays and nb_points: thresholds "
+     "compared bit for bit when all float operations are exact (else as sorted multisets to 1e-9), the model's matrices and rates "
+     "at the implementation's thresholds exactly, and the Lean spec predicates evaluated on the implementation's own arrays.",
+     BASE_NOTE + "np.linspace(0,1,k) is modelled by its exact values i/(k-1); np.nextafter is an oracle; float rounding of the "
+     "interpolated thresholds and of the quotients is outside the proof; scalar (0-d) fnr/fpr/thresholds arguments and negative "
+     "nb_points are outside the property.",
+     "Lean 4 proof about a hand-written model + differential correspondence check", "DESIGN.md §5 C15"),
 ]
 
 ALL = [f"C{i:02d}" for i in range(1, 21)]
